@@ -115,6 +115,16 @@ M = [
 ''', '''func (cfg *Config) ApplyEnvVars() error {
 	jcfg := &jsonConfig{}
 '''),
+ ('C11-hand-status-local-sends-pininfo', 'api/rest/restapi.go',
+  '''				"StatusLocal",
+				pin.Cid,
+				&pinInfo,
+			)
+			api.sendResponse(w, autoStatus, err, pinInfo.ToGlobal())''', '''				"StatusLocal",
+				pin.Cid,
+				&pinInfo,
+			)
+			api.sendResponse(w, autoStatus, err, pinInfo)'''),
  ('C04-hand-unpindag-breaks-on-error', 'cluster.go',
   '''		err = c.consensus.LogUnpin(ctx, api.PinCid(ci))
 		if err != nil {
